@@ -10,14 +10,8 @@ from concurrent.futures import ThreadPoolExecutor
 HERE = os.path.dirname(os.path.abspath(__file__))
 VERIF = os.path.dirname(HERE)
 RFW = "/tmp/rfw"
-# earlier /repo commits patches may have been written for, newest first, with the violations /repo itself had there
-R155 = ["C15/R15.5/variable_versions::ipfix::Data::parse_be/cached-template-copied:IPFixParser.templates",
-        "C15/R15.5/variable_versions::ipfix::OptionsData::parse_be/cached-template-copied:IPFixParser.options_templates",
-        "C15/R15.5/variable_versions::v9::Data::parse_be/cached-template-copied:V9Parser.templates",
-        "C15/R15.5/variable_versions::v9::OptionsData::parse_be/cached-template-copied:V9Parser.options_templates",
-        "C15/R15.5/decode-path/cache-lookups-borrowed"]
-OLD_BASES = [("d7a156f", R155),
-             ("e7d44c8", R155 + ["C05/R5.7/variable_versions::ipfix::FieldParser::parse/stop-criterion:ipfix-data"])]
+sys.path.insert(0, HERE)
+from bases import OLD_BASES
 PROPS = ["C%02d" % i for i in range(1, 18)]
 
 
